@@ -24,7 +24,7 @@ def make_jobs(tier, seed, build):
     nmax = 4 if tier == "quick" else 5
     for gname in GRAMMARS:
         g = CORPUS[gname]
-        for shape in tok.all_shapes_by_words(nmax, g.decl):
+        for shape in tok.all_shapes_by_words(nmax, g.decl, full_upto=4):
             if True:
                 n = len(shape)
                 has_dd = "dd" in shape
